@@ -190,4 +190,39 @@ def replay(spec):
                     break
             if problems:
                 break
+    if not problems:
+        # divisions anywhere on the grid, including inside its last interval: the end of the grid is swept over a whole generation
+        # time of a time-division rule; all species binomial, so daughters' first rows must sum to the mother's last row
+        from bioscrape.lineage import LineageModel, LineageVolumeSplitter
+        for end in np.arange(2.0, 3.3, 0.05):
+            M = LineageModel(species=["S", "X"], reactions=[([], ["S"], "massaction", {"k": 8.0}), (["S"], [], "massaction", {"k": 0.3}),
+                                                            ([], ["X"], "massaction", {"k": 3.0})], initial_condition_dict={"S": 12, "X": 30})
+            M.create_division_rule("time", {"threshold": 1.0}, LineageVolumeSplitter(M))
+            M.create_volume_rule("linear", {"growth_rate": 0.7})
+            M.py_initialize()
+            py_seed_random(11)
+            lin = py_SimulateCellLineage(np.arange(0, end + 1e-9, 0.05), Model=M)
+            for i in range(lin.py_size()):
+                s_ = lin.py_get_schnitz(i)
+                d1, d2 = s_.py_get_daughters()
+                t, vol, data = np.asarray(s_.py_get_time()), np.asarray(s_.py_get_volume()), np.asarray(s_.py_get_data())
+                if not (len(t) == len(vol) == len(data)) or len(t) == 0 or (vol <= 0).any():
+                    problems.append("grid to %.2f: schnitz %d has an empty / ragged / non-positive-volume record" % (end, i))
+                if (d1 is None) != (d2 is None):
+                    problems.append("grid to %.2f: schnitz %d has exactly one daughter" % (end, i))
+                if d1 is None or d2 is None:
+                    continue
+                for d in (d1, d2):
+                    if d.py_get_parent() is not s_ or abs(d.py_get_time()[0] - t[-1]) > 1e-9:
+                        problems.append("grid to %.2f: daughter of schnitz %d: parent link / start time %s vs mother's end %s" % (end, i, d.py_get_time()[0], t[-1]))
+                x1, x2 = np.asarray(d1.py_get_data())[0], np.asarray(d2.py_get_data())[0]
+                if not np.array_equal(x1 + x2, data[-1]):
+                    problems.append("grid to %.2f: mother (divides at t=%.4g) ends with %s, daughters start with %s and %s: binomial species not conserved"
+                                    % (end, t[-1], data[-1].tolist(), x1.tolist(), x2.tolist()))
+                if abs(d1.py_get_volume()[0] + d2.py_get_volume()[0] - vol[-1]) > 1e-9:
+                    problems.append("grid to %.2f: daughter volumes %s + %s from %s" % (end, d1.py_get_volume()[0], d2.py_get_volume()[0], vol[-1]))
+                if problems:
+                    break
+            if problems:
+                break
     return {"reproduced": bool(problems), "observed": problems[:3], "expected": "consistent lineage records"}
